@@ -1026,6 +1026,29 @@ func (r *Run) admin(g *kit.Gor, op *Op) {
 		r.rt = rt
 		r.Restarts++
 		r.mu.Unlock()
+	case "evict":
+		// something outside the transport removes one stored entry (the cleanup job the file-system backend's
+		// documentation recommends, or DELETE through the maintenance API): its index record now dangles
+		r.mu.Lock()
+		var keys []string
+		for k := range r.Live {
+			if strings.Contains(k, "#") {
+				keys = append(keys, k)
+			}
+		}
+		inner := r.inner
+		r.mu.Unlock()
+		sort.Strings(keys)
+		if len(keys) == 0 || inner == nil {
+			return
+		}
+		k := keys[op.AdminArg%len(keys)]
+		err := inner.Delete(k)
+		r.mu.Lock()
+		delete(r.Live, k)
+		r.mu.Unlock()
+		r.probe("entry-evicted-externally")
+		r.Sim.Event(g, "admin.evict", fmt.Sprintf("%s err=%v", k, err != nil))
 	case "corrupt":
 		files := simos.Snapshot()
 		names := make([]string, 0, len(files))
